@@ -28,11 +28,13 @@ Functions under contract (real text):
   types                       MacroString, MacroEntry (verbatim, public enums: the clauses pattern-match on them)
 
 FINDING F-macros-1 (open; native/src/bin/f_macros_1.rs): `MacroIter::next` does not follow the iterator protocol.
-  (a) [C01:iter-finish] FAILS: there is no `is_empty()` test, so on exhausted input (in particular on the call after the
-      `Ok(None)` that ended the unit, which *emptied* the input) `next` returns `Err(UnexpectedEof)` instead of `Ok(None)`
-      -- forever.  Through `impl Iterator for MacroIter` (`next().transpose()`) that is an endless stream of
-      `Some(Err(UnexpectedEof))`: `for e in iter { let Ok(e) = e else { continue }; .. }` or `iter.count()` never terminate,
-      which C01 forbids ("finishes within a number of steps bounded by the input size even when the caller ignores errors").
+  (a) [C01:iter-finish] FAILS: there is no `is_empty()` test, so on exhausted input `next` returns `Err(UnexpectedEof)`
+      instead of `Ok(None)` -- forever: on the call after the `Ok(None)` that ended the unit (the 0 entry *empties* the
+      input) and, worse, when the unit is truncated before its terminator, where `Ok(None)` is never returned.  Through
+      `impl Iterator for MacroIter` (`next().transpose()`) the latter is an endless stream of `Some(Err(UnexpectedEof))`:
+      `for e in iter { let Ok(e) = e else { continue }; .. }` or `iter.count()` never terminate (reproducer: 1 000 000
+      items from a 4-byte unit), which C01 forbids ("finishes within a number of steps bounded by the input size even
+      when the caller ignores errors ... when the input is truncated at any byte").
   (b) [C01:iter-err-empties] FAILS: errors of operand reads leave through `?` without `input.empty()` (only the two
       unknown-type arms empty the input); after e.g. a `define` whose string lacks its NUL the following calls decode the
       bytes of the string as entries.  Same root cause and same fix as (a).
@@ -43,7 +45,9 @@ FINDING F-macros-1 (open; native/src/bin/f_macros_1.rs): `MacroIter::next` does 
             if !matches!(result, Ok(Some(_))) { self.input.empty(); }
             result
         }
-  `python3 vx/run.py macros` exits 1 with exactly these two failed postconditions on the current tree.
+  `python3 vx/run.py macros` exits 1 with exactly these two failed postconditions on the current tree ([C01:iter-err-empties]
+  is reported once per `?` exit, hence MULTIPLE_ERRORS = 40).  The batch accepts both texts: when the tree has the fix
+  (`fn next_entry` present) the decode clauses are spliced on `next_entry` and the full protocol on `next`; verified: exit 0.
 
 Assumed (TRUSTED): core's ledger only (verif_unreachable, Result::and_then, reader_clone, i64::unsigned_abs).
 Rewrites beyond the standard rules (logged): R-CLONE x2 (`self.section.clone()`), R-DROP MacroString::string (needs
@@ -245,10 +249,12 @@ use crate::vspec_macros::*;''')
     it = mc.item(r'^impl<R: Reader> MacroIter<R>', label='MacroIter').clean().own(OWN)
     STRHINT = ('proof {{ lemma_cstr_len0(verif_v0, {v}.rv().len); let b0 = old(self).v_input(); let p0 = verif_v0.start - b0.start; '
                'assert(cstr_len(b0, p0) == cstr_len(verif_v0, 0)); }}')
-    it.splice('next', ret='res', ensures=[
-        # -- iterator protocol (DESIGN 5.2)
+    PROTOCOL_OPEN = [      # the two clauses of finding F-macros-1
         f'[C01:iter-finish] {OI}.len == 0 ==> res matches Ok(None)',
         f'[C01:iter-err-empties] res is Err ==> {FI}.len == 0',
+    ]
+    CLAUSES = [
+        # -- iterator protocol (DESIGN 5.2)
         f'[C01:iter-progress] res matches Ok(Some(_)) ==> {FI}.len < {OI}.len',
         f'[C01:iter-step] {OI}.len > 0 ==> {FI}.len < {OI}.len',
         f'[C01:iter-none-final] res matches Ok(None) ==> {FI}.len == 0',
@@ -259,13 +265,21 @@ use crate::vspec_macros::*;''')
         f'[C01:macro-decode-end] res matches Ok(None) ==> {OI}.len == 0 || {OI}.at(0) == 0',
         f'[C01:macro-decode-unknown] {OI}.len > 0 && {OI}.at(0) != 0 && !macro_known_op(old(self).v_is_macro(), {OI}.at(0)) ==> res is Err && {FI}.len == 0',
         f'[C01:macro-decode-unknown] res matches Ok(Some(_)) ==> {OI}.len > 0 && macro_known_op(old(self).v_is_macro(), {OI}.at(0))',
-    ] + next_clauses(),
+    ] + next_clauses()
+    HINTS = dict(
         before=[('let text = self.input.read_null_terminated_slice()?;', 'let ghost verif_v0 = self.input.rv();'),
                 ('let name = self.input.read_null_terminated_slice()?;', 'let ghost verif_v0 = self.input.rv();'),
                 ('let string = self.input.read_null_terminated_slice()?;', 'let ghost verif_v0 = self.input.rv();')],
         after=[('let text = self.input.read_null_terminated_slice()?;', STRHINT.format(v='text')),
                ('let name = self.input.read_null_terminated_slice()?;', STRHINT.format(v='name')),
                ('let string = self.input.read_null_terminated_slice()?;', STRHINT.format(v='string'))])
+    if 'next_entry' in it.fns():
+        # the tree carries the fix proposed for F-macros-1 (`next` = is_empty test + `next_entry` + empty() on anything but
+        # Ok(Some)): the decode switch lives in `next_entry` and the whole protocol must hold for `next`
+        it.splice('next_entry', ret='res', ensures=CLAUSES, **HINTS)
+        it.splice('next', ret='res', ensures=PROTOCOL_OPEN + CLAUSES)
+    else:
+        it.splice('next', ret='res', ensures=PROTOCOL_OPEN + CLAUSES, **HINTS)
     sk.add('read::macros', it)
     return sk
 
